@@ -225,7 +225,9 @@ def gen_fit(rng, models=MODELS, small_noise=False):
     # models that are not linear in their parameters: the curve is drawn as the Monte Carlo MEAN of f(x; p), which differs
     # from f(x; mean p) by a second-order bias; generated cases stay where that bias is far below the sampling error
     # (relative parameter uncertainties ~1e-4); the regime of large uncertainties is the known finding in corpus/C19
-    data = {"kind": "data", "x": xs, "y": ys, "xerr": None if (nonlinear or rng.random() < 0.75) else 0.125,
+    # x uncertainties only with polynomial-type models (numpy.polyfit ignores them); for curve_fit models the effective
+    # variance vanishes where the model is flat (a x^2 + b at x = 0) and the fit returns +/- inf parameters
+    data = {"kind": "data", "x": xs, "y": ys, "xerr": None if (nonlinear or model == "custom" or rng.random() < 0.75) else 0.125,
             "yerr": rng.choice([None, 0.0625, 0.125]) if not nonlinear else 1 / 4096,
             "name": rng.choice([None, "fitted set"]), "form": "dataset", "xrange": None, "label": None, "fmt": None}
     data.update(gen_names(rng))
@@ -847,7 +849,10 @@ class Structure(Exception):
 
 
 def fl(a):
-    return [float(v) for v in a]
+    out = [float(v) for v in a]
+    if any(v != v or v in (float("inf"), float("-inf")) for v in out):
+        raise Structure("a NaN or infinite value is handed to matplotlib")
+    return out
 
 
 def read_errorbar(cont):
@@ -2025,9 +2030,9 @@ def correspondence(ctx):
     global INTERN
     res = CorrResult()
     rng = ctx.rng
-    n_scripts = ctx.n(50, 560)
+    n_scripts = ctx.n(44, 420)
     n_malformed = ctx.n(8, 60)
-    n_sets = ctx.n(12, 110)
+    n_sets = ctx.n(10, 80)
     cases = []          # (script, order, tag)
     for c in load_corpus():
         if c.get("use") == "oracle":      # recorded findings are replayed by the oracle only
@@ -2078,7 +2083,7 @@ def correspondence(ctx):
     t0 = time.time()
     runs = run_jobs([(s, o) for s, o, _ in cases])
     # multi-plot sessions: each render of each plot becomes a case of that plot's own state
-    sessions = [gen_session(rng) for _ in range(ctx.n(14, 140))]
+    sessions = [gen_session(rng) for _ in range(ctx.n(12, 100))]
     sess_of, n_sess_ok, n_sess_renders = {}, 0, 0
     for sess, result in zip(sessions, run_sessions(sessions)):
         res.count("session:" + result["status"])
@@ -2162,7 +2167,13 @@ def correspondence(ctx):
             flush()
         last_script = skey
         before = sum(len(d) for d in INTERN.defs)
-        term = ccase(s, o, run)
+        try:
+            term = ccase(s, o, run)
+        except (ValueError, OverflowError) as e:     # e.g. a NaN among the auxiliary values of a degenerate fit
+            res.disagreements.append({"name": "case could not be encoded for the model: {}".format(e), "kind": "script",
+                                      "case": {"session": sess_of[id(s)]} if id(s) in sess_of else
+                                      {"script": s, "order": o, "all_orders": False}})
+            continue
         cur.append(term)
         cur_idx.append(k)
         if run["obs"].get("first_render"):
